@@ -34,26 +34,26 @@ type dirRT struct {
 
 // sessRT is the runtime of one scripted proxy connection.
 type sessRT struct {
-	w        *World
-	key      string
-	ci, si   int
-	spec     *spec.Session
-	cli      *clientRT
-	cconn    net.Conn
-	sconn    net.Conn
-	dirs     [2]*dirRT // 0: c2s, 1: s2c
-	sready   chan struct{}
-	readDone [2]chan struct{} // closed when the reader of that direction has read everything expected
-	wrDone   [2]chan struct{} // closed when the writer of that direction has returned from its last Write
-	closing  chan struct{}    // closed when the harness starts closing the session
-	closeOne sync.Once
-	abort    chan struct{} // closed when any call on either end failed: the barrier gives up
-	abortOne sync.Once
-	dialErr  string
-	user     string
+	w                          *World
+	key                        string
+	ci, si                     int
+	spec                       *spec.Session
+	cli                        *clientRT
+	cconn                      net.Conn
+	sconn                      net.Conn
+	dirs                       [2]*dirRT // 0: c2s, 1: s2c
+	sready                     chan struct{}
+	readDone                   [2]chan struct{} // closed when the reader of that direction has read everything expected
+	wrDone                     [2]chan struct{} // closed when the writer of that direction has returned from its last Write
+	closing                    chan struct{}    // closed when the harness starts closing the session
+	closeOne                   sync.Once
+	abort                      chan struct{} // closed when any call on either end failed: the barrier gives up
+	abortOne                   sync.Once
+	dialErr                    string
+	user                       string
 	totalAtDial0, totalAtDial1 int64 // the user's counted traffic when the dial started / returned
-	dialled  bool
-	wg       sync.WaitGroup
+	dialled                    bool
+	wg                         sync.WaitGroup
 }
 
 func isTimeout(err error) bool {
@@ -522,6 +522,10 @@ func (w *World) onAccept(conn net.Conn, req *model.Request) {
 		return
 	}
 	key, ok := parseSessKey(req.DstAddr.FQDN)
+	if ok && w.closeRT != nil {
+		w.closeRT.onAccept(conn, req, key)
+		return
+	}
 	w.mu.Lock()
 	rt := w.sessions[key]
 	w.mu.Unlock()
